@@ -218,7 +218,23 @@ def rnd_value(r, depth=0):
 RND_KEYS = ["a", "b", "key", "with space", "dotted.key", "", "café", "q\"k", "UPPER", "k-1", "k_2", "0", "true"]
 
 
+def rnd_big_table(r):
+    """beyond the usual sizes: hundreds of keys, a very long string, a long array, a deep chain of tables"""
+    t = {"k%03d" % i: r.choice(RND_STRINGS + [i, i % 2 == 0, 0.5 * i]) for i in range(r.randint(80, 300))}
+    # (runs of one quote character stay below 256 here: longer ones are C07's listed finding and are exercised there, deterministically)
+    t["long"] = r.choice(["x", "é", "\n", "\"" * 255 + "'" * 255 + "x"]) * r.choice([4095, 4096, 65536, 70001])
+    t["long"] = t["long"][:70001]
+    t["many"] = [r.choice(RND_STRINGS) for _ in range(r.randint(100, 600))]
+    deep = {"leaf": r.choice(RND_STRINGS)}
+    for i in range(r.randint(8, 20)):
+        deep = {r.choice(["d", "with space", "é"]): deep}
+    t["deep"] = deep
+    return t
+
+
 def rnd_table(r, depth=0, minkeys=0):
+    if depth == 0 and r.random() < 0.004:
+        return rnd_big_table(r)
     n = r.choice([0, 1, 2, 3, 5]) if depth else r.choice([1, 2, 3, 5, 8])
     n = max(n, minkeys)
     keys = r.sample(RND_KEYS, min(n, len(RND_KEYS)))
